@@ -28,8 +28,21 @@ func doSelftest() int {
 	}
 	bad := 0
 	total := 0
-	for _, p := range []string{"C05", "C06", "C07", "C19", "C20"} {
+	type variant struct {
+		prop string
+		auto bool
+	}
+	variants := []variant{{"C05", false}, {"C06", false}, {"C07", false}, {"C19", false}, {"C20", false},
+		{"C06", true}, {"C07", true}, {"C19", true}, {"C20", true}} // auto: the auto-yield workers
+	for _, vr := range variants {
+		p := vr.prop
 		cfg := cfgs[p]
+		cfg.autoBin = vr.auto
+		seeds := seeds
+		if vr.auto {
+			seeds = seeds / 2
+			p = vr.prop
+		}
 		hashes := map[uint64]map[string]bool{}
 		var mu sync.Mutex
 		var wg sync.WaitGroup
@@ -73,7 +86,11 @@ func doSelftest() int {
 			}
 			bad++
 		}
-		fmt.Printf("selftest %s: %d seeds x 9 processes (GOMAXPROCS 1/4/16 x 3), identical event logs: %v\n", p, n, bad == 0)
+		label := p
+		if vr.auto {
+			label += "+auto"
+		}
+		fmt.Printf("selftest %s: %d seeds x 9 processes (GOMAXPROCS 1/4/16 x 3), identical event logs: %v\n", label, n, bad == 0)
 	}
 	// the harness iterates only over slices and sorted keys where order
 	// matters; list the remaining map iterations for review
